@@ -177,6 +177,7 @@ def polygon_report(V, n, R, a):
 # ---------------------------------------------------------------------------
 
 def setup(run):
+    r2.SIGN_FLIPS = True
     from geometry_tools import hyperbolic
     H = hyperbolic
     m_o = run.monitor("origin_to", min_events=50)
